@@ -10,7 +10,7 @@ FUNCTIONS = c01.FUNCTIONS
 MODELS = c01.MODELS
 ASSUMPTIONS = ["the source-level model of the generic definitions (SOURCE table below) mirrors replay/src/corpus.rs, from which the real scale-info derives the registries; instantiations are coincidence-free",
                "documented normalisations: Box kept only at field level, Cow and VecDeque erased to their wire form, compact as attribute, PhantomData fields replaced by one trailing marker naming exactly the otherwise unused parameters"]
-BOUNDS = {"quick": {"definitions": "all generic definitions of the corpus (18)", "instantiation sets": "the corpus set and the closure of each single instantiation"}, "thorough": {"instantiation sets": "same, all settings variants"}}
+BOUNDS = {"quick": {"definitions": "all generic definitions of the corpus (22 structs, 3 enums)", "instantiation sets": "the corpus set and the closure of each single instantiation"}, "thorough": {"instantiation sets (thorough)": "additionally every pair and triple of instantiations, each in registry order and reversed", "instantiation sets": "same, all settings variants"}}
 OUTSIDE = ["programs beyond the corpus definitions"]
 GLOBAL_WITNESSES = ("Ok",)
 
@@ -141,10 +141,11 @@ def check_items(st, toks):
                 if named != unused: probs.append("%s: marker names %s, expected exactly the unused parameters %s in declaration order" % (path, named, unused))
     return probs
 
-def make_family(name, reg0, st, root=None):
+def make_family(name, reg0, st, root=None, reverse=False):
     def mk(eng):
         r = reg0
-        if root is not None: r, _ = restrict(reg0, [root])
+        if root is not None: r, _ = restrict(reg0, list(root) if isinstance(root, (list, tuple)) else [root])
+        if reverse: r = permute(r, list(reversed(range(len(r)))))
         return regdsl._clone(r)
     def run(eng, reg):
         res = {"violations": []}; m = eng.model(); creg = concretize(reg, m)
@@ -172,6 +173,17 @@ def families(eng, tier, seed):
             for i in user_ids(r):
                 if (("::".join(r[i]["path"]) in SOURCE) or ("::".join(r[i]["path"]) in ENUM_SOURCE)) and si == 0:
                     fams.append(make_family("single-%s-%d" % (n, i), r, st, root=i))
+            if tier == "thorough" and si == 0 and n not in ("assoc_noskip",):       # (associated-type fields: two instantiations legitimately differ in shape)
+                # arbitrary finite sets of instantiations: every pair and triple of instantiations of the modelled definitions,
+                # in registry order and reversed (which instantiation is met first must not matter); the whole program reversed
+                inst = [i for i in user_ids(r) if ("::".join(r[i]["path"]) in SOURCE) or ("::".join(r[i]["path"]) in ENUM_SOURCE)]
+                fams.append(make_family("program-%s-reversed" % n, r, st, reverse=True))
+                import itertools
+                for k in (2, 3):
+                    if len(inst) > 14 and k == 3: continue
+                    for combo in itertools.combinations(inst, k):
+                        fams.append(make_family("set-%s-%s" % (n, "+".join(map(str, combo))), r, st, root=combo))
+                        fams.append(make_family("set-%s-%s-reversed" % (n, "+".join(map(str, combo))), r, st, root=combo, reverse=True))
     return fams
 
 def confirm(v, real):
